@@ -650,7 +650,7 @@ func init() {
 					ts := s.Tape
 					ts.Seed = mix(s.Tape.Seed, k)
 					res := genOp(NewTape(ts), rec)
-					c.T(res.brief())
+					c.T(res.tkey())
 					if res.Kind != "ok" {
 						c.Count("generation_"+res.Kind, 1)
 						continue
@@ -677,7 +677,7 @@ func init() {
 					ts := s.Tape
 					ts.Seed = mix(s.Tape.Seed, k)
 					res := genOp(NewTape(ts), b.Recipe)
-					c.T(res.brief())
+					c.T(res.tkey())
 					if res.Kind != "ok" {
 						c.Count("generation_"+res.Kind, 1)
 						continue
